@@ -43,6 +43,7 @@ func init() {
 			{ID: "C08-R18", Title: "array converters compare the list length with the array length", Floor: 1, Run: arraysRejectLongerLists},
 			{ID: "C08-R19", Title: "proxies are not built on nil pointers", Floor: 1, Run: proxiesAreNotBuiltOnNilPointers},
 			{ID: "C08-R20", Title: "structs in Go slices are proxied in place", Floor: 1, Run: sliceElementsAreProxiedInPlace},
+			{ID: "C08-R21", Title: "every output of a reflective call is visited", Floor: 1, Run: everyOutputOfAReflectiveCallIsVisited},
 		},
 	})
 }
